@@ -276,3 +276,34 @@ def dump_annotation(table, gi, slr, start_nt=None):
     first_tab[aug] = list(first_tab[start])
     nul_tab[aug] = nul_tab[start]
     return ann, first_tab, nul_tab
+
+
+def dump_forest_graph(forest, gi):
+    """Numbering of ALL Parent objects reachable from the root, cycles allowed; the root is
+    the last node.  Returns the packed nodes in the model's format."""
+    root = forest.result
+    order = []
+    seen = {id(root)}
+    work = [root]
+    while work:
+        par = work.pop()
+        order.append(par)
+        for poss in par.possibilities:
+            if poss.is_nonterm():
+                for ch in poss.children:
+                    if id(ch) not in seen:
+                        seen.add(id(ch))
+                        work.append(ch)
+    order.reverse()            # root last
+    ids = {id(p): i for i, p in enumerate(order)}
+    nodes = []
+    for par in order:
+        alts = []
+        for poss in par.possibilities:
+            if poss.is_term():
+                alts.append([0, gi.term_index(poss.symbol), poss.start_position, poss.end_position])
+            else:
+                alts.append([1, poss.production.prod_id, poss.start_position, poss.end_position,
+                             [ids[id(c)] for c in poss.children]])
+        nodes.append(alts)
+    return nodes
